@@ -33,6 +33,7 @@ package rest
 //	       beh: what the user handler that runs does: w<code> writes that status, perr / pstr / pabort panic with an
 //	       error / a string / http.ErrAbortHandler, goexit calls runtime.Goexit.  Outcomes then carry ` status=<c>`
 //	       (route handler ran, response status not 200), ` end=<kind>`, ` esc=<panic|goexit>` (it left ServeHTTP).
+//	opt cors                            rest.WithCors()  (OPTIONS requests => "204 cors"; 405 situation => "na=204404 code=404")
 //	opt router                          rest.WithRouter(router.NewRouter())
 //	opt chain=<n>                       rest.WithChain(chain.New(c1 … cn)) (trail tokens c<i>; replaces the native chain)
 //	use id=<k>               => ok      Server.Use(middleware u<k>)
@@ -181,7 +182,9 @@ func (g *c09SrvGen) section() verifh.Section {
 	var ops []string
 	// options (a later one overwrites an earlier one)
 	for i, n := 0, r.Pick(0, 0, 1, 1, 2, 3); i < n; i++ {
-		switch r.Intn(9) {
+		switch r.Intn(10) {
+		case 9:
+			ops = append(ops, "opt cors")
 		case 8:
 			ops = append(ops, "opt chain="+r.PickS("0", "1", "2"))
 		case 7:
@@ -411,7 +414,9 @@ func (g *c09SrvGen) sectionAPI() verifh.Section {
 	r := g.r
 	var ops []string
 	for i, n := 0, r.Pick(0, 0, 1, 2); i < n; i++ {
-		switch r.Intn(6) {
+		switch r.Intn(7) {
+		case 6:
+			ops = append(ops, "opt cors")
 		case 5:
 			ops = append(ops, "opt chain="+r.PickS("0", "1", "2"))
 		case 4:
@@ -813,6 +818,12 @@ func TestVerifC09Server(t *testing.T) {
 				if rec.Code != 200 {
 					o += fmt.Sprintf(" status=%d", rec.Code)
 				}
+			case len(hits) == 0 && len(trail) == 0 && rec.Header().Get("Access-Control-Allow-Origin") != "" &&
+				rec.Code == http.StatusNoContent && req.Method == http.MethodOptions:
+				o = "204 cors" // WithCors: the CORS middleware answered the OPTIONS request
+			case len(hits) == 0 && len(trail) == 0 && rec.Header().Get("Access-Control-Allow-Origin") != "" &&
+				rec.Code == http.StatusNotFound && rec.Body.Len() == 0:
+				o = "na=204404 code=404" // cors.NotAllowedHandler (the built-in not-found handlers write a body)
 			case len(hits) == 0 && rec.Code == http.StatusUnauthorized:
 				o = "401"
 				if len(trail) > 0 {
@@ -868,6 +879,10 @@ func TestVerifC09Server(t *testing.T) {
 					} else {
 						opts = append(opts, WithNotAllowedHandler(custom("na", verifh.Atoi(v))))
 					}
+					return "ok"
+				}
+				if len(op) == 2 && op[1] == "cors" {
+					opts = append(opts, WithCors())
 					return "ok"
 				}
 				if len(op) == 2 && op[1] == "router" {
